@@ -335,7 +335,7 @@ func TestVerifC10(t *testing.T) {
 		}
 	}
 	// Part 2: PRNG layouts: more and larger pages, runs of empty pages, broken links, odd encodings
-	total := c.Share(c.Pick(24000, 150000))
+	total := c.Share(c.Pick(80000, 300000))
 	const rb = 200
 	for i := 0; i < total; i += rb {
 		n := caseNo
